@@ -17,7 +17,7 @@ def rot(p, ang, off):
 
 def feature(rng, t):
     """one isolated near-threshold feature in a local frame around the origin (extent < 15)"""
-    kind = rng.choice(["end_interior", "end_interior", "end_end", "end_boundary"])
+    kind = rng.choice(["end_interior", "end_interior", "end_end", "end_boundary", "end_end_cross"])
     g = rng.choice([0.0, 0.3, 0.9, 1.0, 1.05, 1.1, 1.3, 1.65, 2.0, 3.0, 6.0, 12.0, rng.uniform(0, 12)]) * t
     sign = rng.choice([1, 1, -1])  # undershoot / overshoot
     if kind == "end_interior" and rng.random() < 0.25:
@@ -32,6 +32,10 @@ def feature(rng, t):
         target = [(-6.0, 0.0), (4.0, 0.0)]
         x = 4.0 - s
         return [target, [(x + rng.choice([0.0, 2.0]), 5.0), (x, sign * g)]], kind, g / t * sign
+    if kind == "end_end_cross":
+        # two traces whose ends (nearly) coincide AND that cross each other once elsewhere: their intersection is a MultiPoint when the ends coincide exactly
+        g = rng.choice([0.0, 0.0, 0.3, 0.9, 1.3, 3.0]) * t
+        return [[(-6.0, 0.0), (0.0, 0.0)], [(g, 0.0), (2.0, 2.0), (-2.0, 2.0), (-3.0, -2.0)]], "end_end", g / t
     if kind == "end_end":
         return [[(-6.0, 0.0), (0.0, 0.0)], [(g, 0.0) if sign > 0 else (g * 0.7, g * 0.7), (5.0, 3.0)]], kind, g / t
     # end near the boundary x = 15 of the local area box
@@ -144,7 +148,7 @@ def mutual_abutment(m) -> bool:
 
 
 def s03_accepted(ctx):
-    res = StreamResult("S03-accepted", rule="maps of 1..3 isolated near-threshold features (end near a trace interior incl. close to the target's tip, end near an end, end "
+    res = StreamResult("S03-accepted", rule="maps of 1..3 isolated near-threshold features (end near a trace interior incl. close to the target's tip, end near an end -- also of a trace it crosses elsewhere --, end "
                        "near the area boundary; gaps 0..12 x snap, under- and overshoot, 8 orientations incl. axis-parallel, offsets to UTM scale, thresholds 1e-3..1e-1), "
                        "also onto a target whose nearest vertex (the tip of a hook) is not an end of the abutted segment; z-coordinates on some / all traces of one map in six; filtered through the real Validation; every ACCEPTED map must extract without raising, with no Error branch and I/Y/X nodes terminating 1/3/4 "
                        "branches; non-trivial = accepted map with a feature gap below 2 x snap")
